@@ -40,7 +40,7 @@ def jobs(tier):
         J("buffer.rd." + fn, "buffer_rd_h.c", "h_" + fn, [fn, "bufGetn"], BUF_IN, assumed=["xsfToNative/xdfToNative: no body here (C19 owns them)"])
     # readers with library loops (strlen/strncpy) and allocation: bounded in argc, case split per hostile class
     SMALL = ["-DV_ARGC_MAX=16"]
-    LIBLOOPS = "strlen.0:20,strncpy.0:20,strcpy.0:20"
+    LIBLOOPS = "strlen.0:20,strncpy.0:20,strcpy.0:20,memchr.0:20"
     UNW = ["--unwindset", LIBLOOPS, "--unwinding-assertions"]
     UNW_NOASSERT = ["--unwindset", LIBLOOPS]   # must-refuse classes: the hostile path may run a library loop 2^64 times
     B16 = "argc<=16 (pos, contents symbolic)"
@@ -107,7 +107,8 @@ def jobs(tier):
         if "!" in argf:           # FOAM_Arb "cannot be written to a file": every path must refuse
             J("foam.dec0.%s.must_refuse" % label, "foam_dec_h.c", "h_dec0_" + ent, ["foamFrBuffer0"], DEC_IN, cls="B", bound=DEC_B,
               defs=["-DV_MUST_REFUSE"], cbmc=D0_UNW_NA, assumed=DEC_ASS)
-            J("foam.dec.%s.must_refuse" % label, "foam_dec_h.c", "h_dec_" + ent, ["foamFrBuffer"], DEC_IN, cls="B", bound=DEC_B,
+            if tier == "thorough":
+              J("foam.dec.%s.must_refuse" % label, "foam_dec_h.c", "h_dec_" + ent, ["foamFrBuffer"], DEC_IN, cls="B", bound=DEC_B,
               defs=["-DV_MUST_REFUSE"], cbmc=D_UNW_NA, assumed=DEC_ASS + ["xsfToNative/xdfToNative stubbed (C19 owns them)"], timeout=600)
             continue
         # -- foamFrBuffer0, the skipper
@@ -123,7 +124,8 @@ def jobs(tier):
         # nodes WITH code children are not covered: the child's tag is symbolic and CBMC exhausts 8 GB / 600 s even for a
         # 12-byte buffer and one child (probed: Ptr 'C', Cast 'tC', RRec 'CC', Seq 'C*').  Stated in the report.
         # -- foamFrBuffer, the tree builder (node construction costs ~10 s of symex per node: data tags in quick)
-        if not has_code and (tier == "thorough" or data_tag or name in ("FOAM_BInt", "FOAM_Unimp")):
+        QUICK_DEC = ("FOAM_Nil", "FOAM_Char", "FOAM_HInt", "FOAM_SInt", "FOAM_SFlo", "FOAM_DFlo", "FOAM_Unimp")
+        if not has_code and (tier == "thorough" or name in QUICK_DEC):
             fns = ["foamFrBuffer", "foamNewEmpty", "foamNewAlloc"]
             if "n" in argf:
                 continue        # bintFrPlacevS belongs to bigint.c (C11); the 'n' field is covered for the skipper above
